@@ -161,10 +161,10 @@ package meta
 //@   defines result == memberPayloadSize()
 //@ func handleObjectWithAssociation
 //@   property C02
-//@   loop 1 invariant -1 <= rangeindex && rangeindex < len(children) && 0 <= inhumed && inhumed <= rangeindex + 1
-//@   loop 1 iteration [every_stored_member_marked_now_is_counted_once] inhumed == old(inhumed) + ite(memberHeaderStored() && memberStatus() == statusAvailable, 1, 0)
-//@   loop 1 iteration [payload_taken_off_only_for_members_marked_now] diff.Payload != old(diff.Payload) ==> memberHeaderStored() && memberStatus() == statusAvailable
-//@   loop 1 iteration [payload_of_every_stored_physical_member_marked_now_is_taken_off] memberHeaderStored() && memberStatus() == statusAvailable && memberPhysical() ==> diff.Payload == old(diff.Payload) - int64(memberPayloadSize())
+//@   loop 2 invariant -1 <= rangeindex && rangeindex < len(children) && 0 <= inhumed && inhumed <= rangeindex + 1
+//@   loop 2 iteration [every_stored_member_marked_now_is_counted_once] inhumed == old(inhumed) + ite(memberHeaderStored() && memberStatus() == statusAvailable, 1, 0)
+//@   loop 2 iteration [payload_taken_off_only_for_members_marked_now] diff.Payload != old(diff.Payload) ==> memberHeaderStored() && memberStatus() == statusAvailable
+//@   loop 2 iteration [payload_of_every_stored_physical_member_marked_now_is_taken_off] memberHeaderStored() && memberStatus() == statusAvailable && memberPhysical() ==> diff.Payload == old(diff.Payload) - int64(memberPayloadSize())
 
 // Every counter of the recount is derived from its own index: the first index walk of
 // syncContainerCounters is over the PHYSICAL index, the second over the ROOT index (one
@@ -289,6 +289,49 @@ package meta
 //@   pureeffect
 //@   requires [lock_verdict_for_the_current_epoch_and_the_target] a0 == currEpoch && a2 == target
 //@   defines !result ==> targetNotLocked()
+// Split objects: a tombstone marks the target and every part of it. The lock of a part protects
+// that part, the lock of a split (or EC) object protects its parts - a tombstone aimed at the
+// parent of a locked part, or at a part of a locked parent, would have the garbage collector
+// delete bytes a live lock stands for. No mark is written before every member (the parts, then
+// the target) was found unlocked, itself and through its parent: membersFoundUnlocked(0) counts
+// the negative verdicts, each for the member (id) of the iteration that asks.
+//@ ghost field membersFoundUnlocked(x int) int
+//@ callrule c07_member_lock_verdict in handleObjectWithAssociation
+//@   property C07
+//@   callee metabase.lockedDirectlyOrViaParent
+//@   assigns membersFoundUnlocked
+//@   requires [member_verdict_for_the_current_epoch] a0 == currEpoch
+//@   defines membersFoundUnlocked(0) == old(membersFoundUnlocked(0)) + ite(!result && a2 == id, 1, 0)
+//@ callrule c07_garbage_mark_only_when_no_member_is_locked in handleObjectWithAssociation
+//@   property C07
+//@   callee (*bbolt.Bucket).Put
+//@   requires [every_member_found_unlocked_before_the_first_mark] membersFoundUnlocked(0) == len(children)
+//@ ghost pred askedObjectNotLocked() bool
+//@ ghost pred askedParentNotLocked() bool
+//@ ghost pred parentAttributeOfIDSize() bool
+// (the first question is about the object itself, the second - if the object names a parent -
+// about that parent)
+//@ ghost field lockQuestions(x int) int
+//@ callrule c07_direct_and_parent_verdicts in lockedDirectlyOrViaParent
+//@   property C07
+//@   callee metabase.objectLocked
+//@   assigns lockQuestions
+//@   requires [verdicts_for_the_epoch_asked_about] a0 == currEpoch
+//@   requires [first_question_is_about_the_object_itself] lockQuestions(0) == 0 ==> a2 == id
+//@   defines lockQuestions(0) == old(lockQuestions(0)) + 1
+//@   defines !result && old(lockQuestions(0)) == 0 ==> askedObjectNotLocked()
+//@   defines !result && old(lockQuestions(0)) == 1 ==> askedParentNotLocked()
+//@ callrule c07_parent_attribute in lockedDirectlyOrViaParent
+//@   property C07
+//@   callee metabase.getObjAttribute
+//@   pureeffect
+//@   requires [parent_of_the_object_asked_about] a1 == id && a2 == object.FilterParentID
+//@   defines (len(result) == 32) == parentAttributeOfIDSize()
+//@ func lockedDirectlyOrViaParent
+//@   property C07
+//@   valid lockQuestions(0) == 0
+//@   ensures [not_locked_only_after_a_negative_verdict_for_the_object] !result ==> askedObjectNotLocked()
+//@   ensures [not_locked_only_after_a_negative_verdict_for_its_parent_if_it_has_one] !result && parentAttributeOfIDSize() ==> askedParentNotLocked()
 //@ callrule c07_target_status in handleObjectWithAssociation
 //@   property C07
 //@   callee metabase.objectStatus
@@ -325,14 +368,17 @@ package meta
 //@   defines garbageMarksPut(0) == old(garbageMarksPut(0)) + 1
 //@ func handleObjectWithAssociation
 //@   property C09
-//@   loop 1 iteration [every_member_gets_a_garbage_mark] garbageMarksPut(0) == old(garbageMarksPut(0)) + 1
+//@   loop 2 iteration [every_member_gets_a_garbage_mark] garbageMarksPut(0) == old(garbageMarksPut(0)) + 1
 //@ func handleObjectWithAssociation
 //@   property C07
 //@   ensures [lock_on_tombstoned_target_rejected] err == nil && typ == object.TypeLock ==> targetStatus() != statusTombstoned
 //@   ensures [tombstone_accepted_only_for_unlocked_target] err == nil && typ == object.TypeTombstone ==> targetNotLocked()
 //@   ensures [lock_on_tombstoned_target_rejected_also_when_the_target_has_expired] err == nil && typ == object.TypeLock ==> targetMarkAsked(0) && !targetTombstoneSeen(0)
-//@   valid !targetMarkAsked(0) && !targetTombstoneSeen(0)
+//@   valid !targetMarkAsked(0) && !targetTombstoneSeen(0) && membersFoundUnlocked(0) == 0
+//@   loop 1 invariant [members_before_this_one_found_unlocked] typ == object.TypeTombstone ==> membersFoundUnlocked(0) == rangeindex + 1 && -1 <= rangeindex && rangeindex < len(children)
 //@   loop 1 invariant !targetMarkAsked(0) && !targetTombstoneSeen(0) || typ != object.TypeLock
+//@   loop 2 invariant [all_members_found_unlocked] typ == object.TypeTombstone ==> membersFoundUnlocked(0) == len(children)
+//@   loop 2 invariant !targetMarkAsked(0) && !targetTombstoneSeen(0) || typ != object.TypeLock
 //@   ensures [lock_object_cannot_be_tombstoned] err == nil && typ == object.TypeTombstone && targetTypErr == nil ==> targetTyp != object.TypeLock
 
 // ---- C23 (the part an EC read is assembled from): the get service reads the local part of
